@@ -395,7 +395,7 @@ def build():
                               + ((" " + SIXTH_PASS[pid][0]) if pid in SIXTH_PASS else "")
                               + ((" " + SEVENTH_PASS[pid][0]) if pid in SEVENTH_PASS else "")
                               + ((" " + EIGHTH_PASS[pid][0]) if pid in EIGHTH_PASS else ""),
-                              "design_ref": c["design"] + (", 9.5" if "9.5" not in c["design"] else "") + ", 9.8, 9.9, 9.10, 9.11, 9.12, 9.13, 9.14, 9.15, 9.16"},
+                              "design_ref": c["design"] + (", 9.5" if "9.5" not in c["design"] else "") + ", 9.8, 9.9, 9.10, 9.11, 9.12, 9.13, 9.14, 9.15, 9.16, 9.17"},
             "level_note": c["note"],
             "technique": c["technique"] + (("; " + SECOND_PASS[pid][1]) if SECOND_PASS.get(pid, ("", ""))[1] else "")
             + (("; " + THIRD_PASS[pid][1]) if pid in THIRD_PASS else "")
@@ -697,20 +697,33 @@ SEVENTH_PASS = {
 }
 
 EIGHTH_PASS = {
-    "C01": ("Third hunt and round 8: the non-secular non-equilibrium Foerster tensor preserves the trace column by column.",
-            "index algebra on the NE Foerster assembler"),
+    "C01": ("Third and fourth hunt, round 8: the non-secular non-equilibrium Foerster tensor preserves the trace column by column; "
+            "updateStructure() gives zero column sums whatever stood on the diagonal.",
+            "index algebra on the NE Foerster assembler; linear algebra in (trace, diagonal) on the depopulation statement"),
     "C02": ("Round 8: a store into a basis-managed tensor inside a basis context is made from managed reads.", "managed-store / managed-read pairing"),
-    "C03": ("Round 8: the operators keep no strengths across a change of basis - a stored basis-dependent value is tested only after "
-            "the managed data were touched.", "stored-result analysis with the lazy-transformation obligation"),
-    "C04": ("Third hunt and round 8: basis stacks move in lockstep; managed stores come from managed reads.", "lockstep rule; managed-store rule"),
+    "C03": ("Round 8 and fourth hunt: the operators keep no strengths across a change of basis - a stored basis-dependent value is "
+            "tested only after the managed data were touched; a rebuilt aggregate derives its bath again.",
+            "stored-result analysis with the lazy-transformation obligation and the relay-flag form"),
+    "C04": ("Third and fourth hunt, round 8: basis stacks move in lockstep; managed stores come from managed reads; __enter__ fails "
+            "before it touches the bookkeeping; questions put to a managed object are answered from the managed property.",
+            "lockstep rule; managed-store rule; fallible-before-effect ordering; raw-read rule on value-returning methods"),
     "C06": ("Round 8: sums over sites run over the site index of the eigenvector matrix in every rate and tensor builder.",
             "axis-role typing (site / eigenstate) of subscripts, products, transposes and einsum letters"),
-    "C08": ("Round 8: a flag given to a constructor is the flag of the new object.", "constructor path analysis with callee write summaries"),
+    "C08": ("Round 8 and fourth hunt: a flag given to a constructor is the flag of the new object; conversion and application of a "
+            "rotating-frame superoperator account for the phases at the first time of its axis.",
+            "constructor path analysis with callee write summaries; frame-origin rule"),
     "C09": ("Round 8: a temperature given explicitly replaces the one held in the components.", "explicit-argument rule on None-default parameters"),
     "C10": ("Round 8: the Franck-Condon look-up compares the shift itself.", "exact-key rule on the searching methods"),
-    "C11": ("Round 8: the matrix of correlation functions keeps whole functions.", "whole-row store rule"),
-    "C12": ("Third hunt and round 8: the pathway generators diagonalize what is not diagonalized yet; pathways are generated from the "
-            "system and set-up of the call.", "dead-call rule (caller condition vs callee guard); stored-result analysis of the calculator"),
+    "C05": ("Fourth hunt: what a function on a frequency axis keeps (interpolation splines) is kept in internal values.",
+            "stored-result analysis with units-managed reads of a held axis"),
+    "C07": ("Fourth hunt: the time-dependent and time-independent tensors a system builds for one request get the same options; every "
+            "selectable propagation routine returns an evolution or refuses (four open findings).",
+            "sibling-constructor option rule; all-paths return rule"),
+    "C11": ("Round 8 and fourth hunt: the matrix of correlation functions keeps whole functions; the spectrum of a molecule sums over "
+            "all its transitions from the ground state.", "whole-row store rule; level-index rule on the monomer calculation"),
+    "C12": ("Third and fourth hunt, round 8: the pathway generators diagonalize what is not diagonalized yet; pathways are generated "
+            "from the system and set-up of the call; the averaging vector follows the polarisations.",
+            "dead-call rule; stored-result analysis of the calculator; derived-on-read / re-deriving-writers rule"),
     "C13": ("Round 8: a method that moves an axis moves points and description alike.", "symbolic interpretation of the axis record (start = S, data = S + k*step)"),
     "C14": ("Round 8: the index handed to the bath getter and what the getter does with it add up to the molecule's number.",
             "offset algebra over caller and callee"),
@@ -718,9 +731,11 @@ EIGHTH_PASS = {
             "effect analysis of the kernels; persistent-accumulator rule"),
     "C16": ("Round 8: what is recorded while the baths are counted is recorded where the counter advances.", "counter-lockstep analysis"),
     "C17": ("Round 8: a moved time axis is still one axis (rule of C13-G).", "symbolic interpretation of the axis record"),
-    "C18": ("Round 8: a recorded rank is restored exactly.", "path-condition rule on squeeze"),
-    "C19": ("Round 8: what is added or set is stored whole; a refused first addition restores also the absence of the storage.",
-            "faithful-store tracing; roll-back rule with absent attributes"),
+    "C18": ("Round 8 and fourth hunt: a recorded rank is restored exactly; the step of an imported axis is computed from internal values.",
+            "path-condition rule on squeeze; units context of the step assignment"),
+    "C19": ("Round 8 and fourth hunt: what is added or set is stored whole; a refused first addition restores also the absence of the "
+            "storage; a container of views carries the type it was asked for.",
+            "faithful-store tracing; roll-back rule with absent attributes; parameter-forwarding to the container"),
     "C20": ("Round 8: every collected item is received into an array of its own.", "per-iteration freshness of receive buffers"),
 }
 
